@@ -6,6 +6,10 @@
        b   L = bargers use nsync_mu_lock         R = bargers use nsync_mu_rlock     T = nsync_mu_trylock
        strategy   fixed = one barger re-acquires every time        alt = two bargers alternate
                   fresh = the barging thread exits and a new thread arrives for every round
+                  late  = (victim w, bargers L only) two readers are woken together with the victim queued
+                          behind them; one of them is slow to run: it makes its attempt only after the
+                          victim has escalated (set the long-wait bit) and queues ahead of it, is woken
+                          alone by the next unlock and must then take the free mutex and pass it on
    The bargers make LONG_WAIT_THRESHOLD + 6 attempts.  Deviations from the strategy (P, E budgets) are
    explored like any other schedule.
    Oracle: as in the starve family (no call that never slept acquires once the victim's
@@ -30,6 +34,7 @@ static int ad_setup (const char *program) {
 	if (!strcmp (program + 3, "fixed")) { strat = 0; nbarg = 1; }
 	else if (!strcmp (program + 3, "alt")) { strat = 1; nbarg = 2; }
 	else if (!strcmp (program + 3, "fresh")) { strat = 2; nbarg = 1; }
+	else if (!strcmp (program + 3, "late")) { if (vreader || bkind != 'L') return -1; strat = 3; nbarg = 3; }
 	else return -1;
 	if (ROUNDS >= 64) return -1;
 	h_parse ("x");
@@ -48,8 +53,54 @@ MC_ORACLE static void acquired (void *m, int acq, int writer) {
 static void ad_init (void) { nsync_mu_init (&mu); mc_name (&mu, sizeof mu, "mu"); mc_rwlock_listener = &acquired; }
 MC_ORACLE static void victim_begin (void) { victim_in_call = 1; }
 MC_ORACLE static void victim_end (unsigned s) { victim_sleeps_final = (int) s; }
+static volatile int go_r2, go_a, go_late;
+/* strategy "late": T0 victim writer, T1 holder / barger, T2 reader that runs promptly, T3 reader that is slow */
+static void late_thread (int me) {
+	int r;
+	if (me == VICTIM) {
+		unsigned s;
+		mc_await (&go_a);
+		mc_blocks_reset ();
+		victim_begin ();
+		nsync_mu_lock (&mu);
+		s = mc_sleeps_of (VICTIM);
+		(void) mc_blocks ();
+		victim_end (s);
+		nsync_mu_unlock (&mu);
+	} else if (me == 1) {
+		nsync_mu_lock (&mu);
+		mc_flag_set (&started, 1);
+		mc_handoff (2);                       /* the prompt reader queues */
+		mc_flag_set (&go_r2, 1); mc_handoff (3);   /* the slow reader queues */
+		mc_flag_set (&go_a, 1); mc_handoff (VICTIM);   /* the victim queues behind both */
+		nsync_mu_unlock (&mu);                /* wakes both readers */
+		mc_handoff (2);                       /* the prompt one takes the mutex, releases it (waking the victim) and hands back */
+		for (r = 0; r < LONG_WAIT_THRESHOLD + 1; r++) {
+			mc_blocks_reset ();
+			nsync_mu_lock (&mu);          /* a fresh call gets in ahead of the woken victim ... */
+			(void) mc_blocks ();
+			mc_handoff (VICTIM);          /* ... which fails, and after LONG_WAIT_THRESHOLD failures escalates */
+			if (r == LONG_WAIT_THRESHOLD - 1) { mc_flag_set (&go_late, 1); mc_handoff (3); }   /* only now does the slow reader make its attempt */
+			nsync_mu_unlock (&mu);
+		}
+	} else if (me == 2) {
+		mc_await (&started);
+		mc_blocks_reset ();                   /* these calls do wait: the oracle must see that */
+		nsync_mu_rlock (&mu);
+		(void) mc_blocks ();
+		nsync_mu_runlock (&mu);
+		mc_handoff (1);
+	} else {
+		mc_await (&go_r2);
+		mc_blocks_reset ();
+		nsync_mu_rlock (&mu);                 /* woken early, scheduled late */
+		(void) mc_blocks ();
+		nsync_mu_runlock (&mu);
+	}
+}
 static void ad_thread (int me) {
 	int r;
+	if (strat == 3) { late_thread (me); return; }
 	if (me == VICTIM) {
 		unsigned s;
 		mc_await (&started);
